@@ -236,6 +236,30 @@ def run(ctx, res):
             inner |= {c.rsplit("::", 1)[-1] for c in reach(n, set())}
         m -= inner
         direct = set(si.field_names(CTX)) - PUBLIC_FIELDS
+        # a size that is *chosen* by a branch (`if self.tmp_dir.is_some() { a } else { b }`, e.g. a sizing helper that
+        # was spliced in) depends on what the branch tests as well
+        from an import control_deps
+        locs_by_body = {}
+        for n_ in si.reach:
+            if n_[0] != "F":
+                locs_by_body.setdefault(n_[0], set()).add(n_[1])
+        for bk_, ls_ in locs_by_body.items():
+            bb_ = fg.bodies.get(bk_)
+            if bb_ is None or not bb_.owner.startswith("polytune::mpc::protocol::"):
+                continue
+            cd_ = None
+            for l_ in ls_:
+                ds_ = defs_of(bb_, l_)
+                if len(ds_) < 2:
+                    continue
+                if cd_ is None:
+                    cd_ = control_deps(bb_)
+                for (dbi, _si, _r) in ds_:
+                    for (sw_, _succ) in cd_.get(dbi, ()):
+                        tt_ = bb_.blocks[sw_]["t"]
+                        if tt_["k"] == "switch" and tt_["o"]["k"] != "const":
+                            csi = SliceInfo(fg, fg.operand_nodes(bk_, tt_["o"]))
+                            direct |= set(csi.field_names(CTX)) - PUBLIC_FIELDS - {"circ"}
         for f in direct:
             m.add("<field %s>" % f)
         if not m and si.literals:
